@@ -146,6 +146,31 @@ int w_ksc(const uint8_t* a, const uint8_t* b, size_t* enc) {
 }
 void h_ksc() { w_ksc((const uint8_t*)nondet_ptr(), (const uint8_t*)nondet_ptr(), (size_t*)nondet_ptr()); REACH; }
 
+// ---------------------------------------------------------------- ContextInfoContainer: encode, size, decode again
+// a = [n1][4 bytes][n2][4 bytes]; back = same layout for the decoded keystones
+int w_ctxser(int32_t height, const uint8_t* a, int32_t* back_h, uint8_t* back, size_t* enc) {
+  ContextInfoContainer c;
+  c.height = height;
+  c.keystones.firstPreviousKeystone = std::vector<uint8_t>(a + 1, a + 1 + a[0]);
+  c.keystones.secondPreviousKeystone = std::vector<uint8_t>(a + 6, a + 6 + a[5]);
+  WriteStream w;
+  c.toVbkEncoding(w);
+  *enc = w.data().size();
+  __CPROVER_assert(c.estimateSize() == w.data().size(), "estimateSize() == bytes written by toVbkEncoding()");
+  ReadStream r(w.data());
+  ValidationState st;
+  ContextInfoContainer d;
+  bool ok = DeserializeFromVbkEncoding(r, d, st);
+  *back_h = d.height;
+  for (int i = 0; i < 10; i++) back[i] = 0;
+  back[0] = (uint8_t)d.keystones.firstPreviousKeystone.size();
+  for (int i = 0; i < 4; i++) if ((size_t)i < d.keystones.firstPreviousKeystone.size()) back[1 + i] = d.keystones.firstPreviousKeystone.data()[i];
+  back[5] = (uint8_t)d.keystones.secondPreviousKeystone.size();
+  for (int i = 0; i < 4; i++) if ((size_t)i < d.keystones.secondPreviousKeystone.size()) back[6 + i] = d.keystones.secondPreviousKeystone.data()[i];
+  __CPROVER_assert(!ok || r.remaining() == 0, "decoder consumes exactly the encoding");
+  return ok;
+}
+void h_ctxser() { w_ctxser((int32_t)nondet_size_t(), (const uint8_t*)nondet_ptr(), (int32_t*)nondet_ptr(), (uint8_t*)nondet_ptr(), (size_t*)nondet_ptr()); REACH; }
 // ---------------------------------------------------------------- Coin, PublicationData: encode, size, decode again
 int w_coin(int64_t units, int64_t* back, size_t* enc) {
   Coin c(units);
